@@ -69,6 +69,9 @@ func NormalizeParams(params ...any) *core.SchemaParams {
 		}
 		cp := *v
 		return &cp
+	case core.ZodErrorMap, *core.ZodErrorMap, func(core.ZodRawIssue) string:
+		// a message function given directly, like the string shorthand
+		return &core.SchemaParams{Error: v}
 	default:
 		return &core.SchemaParams{}
 	}
